@@ -103,7 +103,8 @@ class LinksEngine(LinksEngineBase, Generic[VarType]):
         a: VarType,
     ) -> VarType:
         Veq = LinksEngine.Veq(rho, v_free, rho_crit, a)
-        Veq[vsl] = cs.fmin(Veq[vsl], (1 + alpha) * v_ctrl)
+        if vsl:  # casadi cannot index with an empty list
+            Veq[vsl] = cs.fmin(Veq[vsl], (1 + alpha) * v_ctrl)
         return Veq
 
 
